@@ -150,6 +150,53 @@ def run_spec(spec, props=("C20",)):
                         A.add(V("C20", "estimate_R0", "graph", "exception", "%s: estimate_R0 raised %r" % (tag, e))); continue
                     if abs(got - want) > 1e-12 * max(1, abs(want)):
                         A.add(V("C20", "estimate_R0", "graph", "value", "%s: estimate_R0(tau=%r,gamma=%r,T=%r) = %r, T<k^2-k>/<k> = %r" % (tag, tau, gamma, T, got, want), (), got, want))
+            # histories: the SAME graph object is rewired in place (one edge moved: node and edge counts unchanged) and asked again;
+            # every (edge, non-edge) move and its reversal on graphs of <=5 nodes, the first 8 moves on larger ones
+            if es and not spec.get("variant") and not G.is_multigraph():
+                nonedges = [(u, v) for u in range(n) for v in range(u + 1, n) if not G.has_edge(u, v)]
+                moves = [(e, f) for e in es for f in nonedges]
+                if n > 5:
+                    moves = moves[:8]
+                for (e, f) in moves:
+                    for (rem, add, what) in ((e, f, "moved"), (f, e, "moved back")):
+                        G.remove_edge(*rem); G.add_edge(*add)
+                        A.evals += 1
+                        A.trans.add((n, tuple(es), e, f, what))
+                        d2 = dict(G.degree()); h2 = {}
+                        for v, k in d2.items():
+                            h2[k] = h2.get(k, 0) + 1
+                        P2 = {k: Fraction(c, n) for k, c in h2.items()}
+                        A.states.add((n, tuple(sorted(tuple(sorted(x)) for x in G.edges()))))
+                        tag2 = "%s, then edge %r %s to %r in place" % (tag, e, what, f)
+                        try:
+                            got = EoN.get_Pk(G)
+                        except Exception as ex:
+                            A.add(V("C20", "get_Pk", "graph+rewired", "exception", "%s: get_Pk raised %r" % (tag2, ex))); continue
+                        if set(got) != set(P2) or any(abs(got[k] - float(P2[k])) > 1e-12 for k in P2):
+                            A.add(V("C20", "get_Pk", "graph+rewired", "value", "%s: get_Pk=%r, degree histogram gives %r" % (tag2, got, {k: float(v) for k, v in P2.items()})))
+                        ka = sum(k * P2[k] for k in P2); kk = sum(k * (k - 1) * P2[k] for k in P2)
+                        want = 0.25 * float(kk) / float(ka)
+                        try:
+                            r0 = EoN.estimate_R0(G, transmissibility=0.25)
+                            if abs(r0 - want) > 1e-12 * max(1, abs(want)):
+                                A.add(V("C20", "estimate_R0", "graph+rewired", "value", "%s: estimate_R0(T=0.25) = %r, T<k^2-k>/<k> = %r" % (tag2, r0, want), (), r0, want))
+                        except Exception as ex:
+                            A.add(V("C20", "estimate_R0", "graph+rewired", "exception", "%s: estimate_R0 raised %r" % (tag2, ex)))
+                        try:
+                            Pnk2 = EoN.get_Pnk(G)
+                            for k1 in h2:
+                                if k1 == 0:
+                                    continue
+                                row = {}; tot = 0
+                                for v in G:
+                                    if d2[v] == k1:
+                                        for w in G.neighbors(v):
+                                            row[d2[w]] = row.get(d2[w], 0) + 1; tot += 1
+                                g2 = dict(Pnk2[k1])
+                                if any(abs(g2.get(k2_, 0) - c / tot) > 1e-12 for k2_, c in row.items()) or any(k2_ not in row and abs(g2[k2_]) > 1e-12 for k2_ in g2):
+                                    A.add(V("C20", "get_Pnk", "graph+rewired", "value", "%s: get_Pnk[%d] = %r, neighbour degree distribution is %r" % (tag2, k1, g2, {a: b / tot for a, b in row.items()})))
+                        except Exception as ex:
+                            A.add(V("C20", "get_Pnk", "graph+rewired", "exception", "%s: get_Pnk raised %r" % (tag2, ex)))
             A.outcomes.add(hsh(sorted(Pk.items())))
         A.execs = A.evals
         A.sample = {"graph": spec["graphs"][0]}
